@@ -342,7 +342,8 @@ def joinEnd (net : Net) (j : Nat) : Net :=
   match net.get j with
   | none => net
   | some nd =>
-    let net' := fixFinger (stabilize net j) j          -- startTasks
+    let net' := fixFinger (stabilize net j) j          -- startTasks: run once …
+    let net' := checkPredecessor net' j                -- … then the periodic predecessor check starts at once
     let net' := match nd.pred with
       | some prev => finish net' prev true false        -- advisory to predecessor
       | none => net'
@@ -366,7 +367,51 @@ def requestToLeave (net : Net) (s : Nat) : Net × Option Err :=
     else if nd.state == .active then (net.upd s (fun nd => { nd with state := .transferring }), none)
     else (net, some .leaveInvalidState)
 
-/-- `Leave()` at node `l` (single attempt of executeLeave) -/
+/-- the asymmetric lock acquisition of `executeLeave` (successor first iff `l > succ`) -/
+def leaveLocks (net : Net) (l succ : Nat) : Net × Option Err :=
+  if l > succ then
+    match requestToLeave net succ with
+    | (net', some e) => (net', some e)
+    | (net', none) =>
+      if ((net'.get l).map (·.state)) == some .active then (net'.upd l (fun nd => { nd with state := .leaving }), none)
+      else (finish net' succ false true, some .leaveInvalidState)
+  else
+    if ((net.get l).map (·.state)) != some .active then (net, some .leaveInvalidState) else
+    let net' := net.upd l (fun nd => { nd with state := .leaving })
+    match requestToLeave net' succ with
+    | (net'', some e) => (net''.upd l (fun nd => { nd with state := .active }), some e)
+    | (net'', none) => (net'', none)
+
+/-- `transferKeysDownward(succ)` at node `l`: RangeKeys(0,0) (everything); Export; Import@succ; RemoveKeys -/
+def transferDown (net : Net) (l succ : Nat) (store : List KEntry) : Option Net :=
+  let moved := rangeKeys store 0 0
+  if moved.isEmpty then some net
+  else match importAt net succ moved with
+    | some n2 => some (n2.upd l (fun nd => { nd with store := removeKeys nd.store moved }))
+    | none => none
+
+/-- `executeLeave()` at node `l`: one attempt. `ok none` = only node of the ring (nothing to do). -/
+def executeLeave (net : Net) (l : Nat) : Net × Except Err (Option (Nat × Nat)) :=
+  match net.get l with
+  | none => (net, .error .unreachable)
+  | some nd =>
+    match nd.pred with
+    | none => (net, .error .nilPredecessor)
+    | some pre =>
+    match nd.succs.head? with
+    | none => (net, .error .noSuccessor)
+    | some succ =>
+      if pre == l && succ == l then (net, .ok none) else
+      match leaveLocks net l succ with
+      | (net', some e) => (net', .error e)
+      | (net', none) =>
+        match transferDown net' l succ nd.store with
+        | none =>
+          let net' := net'.upd l (fun nd => { nd with state := .active })
+          (finish net' succ false true, .error .leaveTransferFailure)
+        | some net' => (net'.upd l (fun nd => { nd with surrogate := some l }), .ok (some (pre, succ)))
+
+/-- `Leave()` at node `l` (single attempt of executeLeave, then advisories and lock release) -/
 def leave (net : Net) (l : Nat) : Net × Option Err :=
   match net.get l with
   | none => (net, some .unreachable)
@@ -374,47 +419,14 @@ def leave (net : Net) (l : Nat) : Net × Option Err :=
     match nd.state with
     | .inactive | .leaving | .left => (net, none)
     | _ =>
-    match nd.pred with
-    | none => (net, some .nilPredecessor)
-    | some pre =>
-    match nd.succs.head? with
-    | none => (net, some .noSuccessor)
-    | some succ =>
-      if pre == l && succ == l then (net.upd l (fun nd => { nd with state := .left }), none) else
-      -- asymmetric lock order
-      let locked : Net × Option Err :=
-        if l > succ then
-          match requestToLeave net succ with
-          | (net', some e) => (net', some e)
-          | (net', none) =>
-            if ((net'.get l).map (·.state)) == some .active then (net'.upd l (fun nd => { nd with state := .leaving }), none)
-            else (finish net' succ false true, some .leaveInvalidState)
-        else
-          if nd.state != .active then (net, some .leaveInvalidState) else
-          let net' := net.upd l (fun nd => { nd with state := .leaving })
-          match requestToLeave net' succ with
-          | (net'', some e) => (net''.upd l (fun nd => { nd with state := .active }), some e)
-          | (net'', none) => (net'', none)
-      match locked with
-      | (net', some e) => (net', some e)
-      | (net', none) =>
-        -- transferKeysDownward
-        let moved := rangeKeys nd.store 0 0
-        let xfer : Option Net :=
-          if moved.isEmpty then some net'
-          else match importAt net' succ moved with
-            | some n2 => some (n2.upd l (fun nd => { nd with store := removeKeys nd.store moved }))
-            | none => none
-        match xfer with
-        | none =>
-          let net' := net'.upd l (fun nd => { nd with state := .active })
-          (finish net' succ false true, some .leaveTransferFailure)
-        | some net' =>
-          let net' := net'.upd l (fun nd => { nd with surrogate := some l })
-          let net' := if pre != l then finish net' pre true false else net'
-          let net' := net'.upd l (fun nd => { nd with state := .left })
-          let net' := if succ != l then finish net' succ false true else net'
-          (net', none)
+      match executeLeave net l with
+      | (net', .error e) => (net', some e)
+      | (net', .ok none) => (net'.upd l (fun nd => { nd with state := .left }), none)
+      | (net', .ok (some (pre, succ))) =>
+        let net' := if pre != l then finish net' pre true false else net'
+        let net' := net'.upd l (fun nd => { nd with state := .left })
+        let net' := if succ != l then finish net' succ false true else net'
+        (net', none)
 
 /-! ### routed KV operations (`kvMiddleware`) -/
 
